@@ -145,7 +145,7 @@ class UnitRun:
                     new = False
                     for c in culprits:
                         if c not in self.undecidable:
-                            first = cl["front_end"][0].split("\n", 1)[0]
+                            first = next((l for b in cl["front_end"] for l in b.split("\n") if l.startswith("error")), cl["front_end"][0].split("\n", 1)[0])
                             self.undecidable[c] = "outside Verus's subset after an edit (front-end error: %s)" % first[:160]
                             new = True
                     if new:
